@@ -175,6 +175,10 @@ class TermEval:
             if isinstance(e.func, ast.Attribute) and e.func.attr in TRANSPARENT_METHODS \
                     and not e.args:
                 return self.ev(e.func.value)
+            if name in ("min", "max") and len(e.args) == 1 and not e.keywords and isinstance(
+                    e.args[0], (ast.Tuple, ast.List)) and len(e.args[0].elts) >= 2:
+                args = sorted(repr(self.ev(a)) for a in e.args[0].elts)   # max((a, b)) == max(a, b)
+                return Poly.atom(f"{name}({', '.join(args)})")
             if name in ("min", "max") and len(e.args) >= 2 and not e.keywords:
                 args = sorted(repr(self.ev(a)) for a in e.args)
                 return Poly.atom(f"{name}({', '.join(args)})")
@@ -190,6 +194,15 @@ class TermEval:
             return Poly.atom(self.text(e))
         if isinstance(e, ast.IfExp):
             return Poly.atom(f"if({self.text(e.test)}, {self.ev(e.body)!r}, {self.ev(e.orelse)!r})")
+        if isinstance(e, ast.Subscript) and isinstance(e.value, ast.Call) and ast.unparse(e.value.func) == "sorted" \
+                and len(e.value.args) == 1 and not e.value.keywords \
+                and isinstance(e.value.args[0], (ast.Tuple, ast.List)) and len(e.value.args[0].elts) >= 2:
+            idx = e.slice
+            if isinstance(idx, ast.UnaryOp) and isinstance(idx.op, ast.USub) and isinstance(idx.operand, ast.Constant):
+                idx = ast.Constant(value=-idx.operand.value)
+            if isinstance(idx, ast.Constant) and idx.value in (0, -1):   # sorted((a, b))[-1] == max(a, b)
+                args = sorted(repr(self.ev(a)) for a in e.value.args[0].elts)
+                return Poly.atom(f"{'max' if idx.value == -1 else 'min'}({', '.join(args)})")
         if isinstance(e, (ast.Attribute, ast.Subscript)):
             return Poly.atom(self.text(e))
         return Poly.atom(self.text(e))
